@@ -150,12 +150,18 @@ func (er *EpidemicRouting) DispatchingAllowed(bp BundleDescriptor) bool {
 	css, _ := er.clasForBundle(bp, false)
 
 	if len(css) == 0 {
-		bi.Pending = true
-		if err := er.c.store.Update(bi); err != nil {
-			log.WithFields(log.Fields{
-				"error": err,
-			}).Warn("Updating BundleItem failed")
+		// The item is read again under the mutex: the copy from above may be outdated by now, e.g., lack the peers
+		// which a concurrent forwarding of this bundle has recorded as served in the meantime.
+		er.sentMutex.Lock()
+		if bi, biErr = er.c.store.QueryId(bp.Id); biErr == nil {
+			bi.Pending = true
+			if err := er.c.store.Update(bi); err != nil {
+				log.WithFields(log.Fields{
+					"error": err,
+				}).Warn("Updating BundleItem failed")
+			}
 		}
+		er.sentMutex.Unlock()
 	}
 
 	return len(css) > 0
